@@ -3,7 +3,7 @@ import itertools, re
 import vlib
 from vlib import hx, unhx, case_line, show
 
-THEOREMS = ["C20_exact", "C20_pinned_refuted", "C20_callsite_accepts", "C20_callsite_rejects"]
+THEOREMS = ["C20_exact", "C20_pinned_refuted", "C20_callsite_accepts", "C20_callsite_rejects", "C20_every_container_service_of_the_run"]
 ALPHA = ["0", "9", "-", "/", "t", "c", "p", "u", "d", "x"]
 RE = re.compile(r"[0-9]+(-[0-9]+)?(/tcp|/udp)?\Z")
 
